@@ -255,12 +255,17 @@ class CFG:
                 return False
             cur = nxt
 
-    def reaches(self, a, b, avoid: typing.Iterable = (), normal_only: bool = False) -> bool:
+    def reaches(self, a, b, avoid: typing.Iterable = (), normal_only: bool = False, no_back: bool = False) -> bool:
         """Is there a path a -> b (node ids or statements) that avoids ``avoid``?"""
         na = a if isinstance(a, (str, int)) else self.node(a)
         nb = b if isinstance(b, (str, int)) else self.node(b)
         av = {x if isinstance(x, (str, int)) else self.node(x) for x in avoid}
         g = self.normal_graph() if normal_only else self.g
+        if no_back:
+            h = nx.DiGraph()
+            h.add_nodes_from(g.nodes)
+            h.add_edges_from((u, v) for u, v, d in g.edges(data=True) if not d.get('back'))
+            g = h
         if na in av:
             return False
         seen = {na}
